@@ -115,27 +115,31 @@ lc (mp_ptr rp, gmp_randstate_t rstate)
   /* Save result as next seed.  */
   MPN_COPY (PTR (p->_mp_seed), tp, tn);
 
-  /* Discard the lower m2exp/2 of the result.  */
-  bits = m2exp / 2;
+  /* Discard the lower half of the result, rounded up, so that exactly
+     m2exp/2 bits in BITS_TO_LIMBS (m2exp/2) limbs are returned: the chunk
+     randget_lc works with.  (For odd m2exp one bit, and possibly one limb,
+     too many used to be produced; for even m2exp nothing changes.)  */
+  bits = (m2exp + 1) / 2;
   xn = bits / GMP_NUMB_BITS;
 
   tn -= xn;
   if (tn > 0)
     {
       unsigned int cnt = bits % GMP_NUMB_BITS;
+      mp_size_t rn = BITS_TO_LIMBS (m2exp / 2);
       if (cnt != 0)
 	{
 	  mpn_rshift (tp, tp + xn, tn, cnt);
-	  MPN_COPY_INCR (rp, tp, xn + 1);
+	  MPN_COPY_INCR (rp, tp, rn);
 	}
       else			/* Even limb boundary.  */
-	MPN_COPY_INCR (rp, tp + xn, tn);
+	MPN_COPY_INCR (rp, tp + xn, rn);
     }
 
   TMP_FREE;
 
   /* Return number of valid bits in the result.  */
-  return (m2exp + 1) / 2;
+  return m2exp / 2;
 }
 
 
